@@ -23,3 +23,6 @@ Record gaccess := mkAcc {
   a_reach : bool;          (* the function is reachable from krusty.Run (RTA) *)
   a_val : string           (* constant stored, for AWrite of a constant *)
 }.
+
+(* how TransformerConfig.DeepCopy fills a field of its result (Gen/DeepCopy.v) *)
+Inductive dckind := DCDeep | DCShared | DCMissing | DCOther.
